@@ -11,6 +11,7 @@ from ..oracles import load, python_mutators
 from ..report import Registry, chain, sub
 from .c38 import _decorators as _coll_decorators, _delegations, _interfaces as _coll_interfaces
 from ._helpers_rob_h1 import local_defs, nform, tri_edges
+from ._helpers_str2_u import ModelRaise as _MRaise, ProxyExec, Unsupported as _MUnsupported, etype_of
 
 R = Registry(
     "C50",
@@ -116,8 +117,8 @@ def r1(ctx):
             for c in calls_in(f.node):
                 if call_name(c) != "self._order_entity":
                     continue
-                lp = next((a for a in ancestors(pm, c) if isinstance(a, (ast.For, FuncNode))), None)
-                lp = lp if isinstance(lp, ast.For) else None
+                lp = next((a for a in ancestors(pm, c) if isinstance(a, (ast.For, ast.While, FuncNode))), None)
+                lp = lp if isinstance(lp, (ast.For, ast.While)) else None
                 if lp is None:
                     single += g.nodes_containing(c)
                 elif not lexical_guards(pm, c, stop=lp):
@@ -1336,6 +1337,180 @@ def r4(ctx):
             ctx.ok(f"{f.key}:partition", f"old-only removed, new-only created, kept {'re-assigned' if v.fresh[_B] else 'present'}")
 
 
+# ------------------------------------- C50-R5: the proxy collections against the builtin collections, input by input
+COLL_ARGS = {k: v for k, v in load("python_collection_mutator_arguments.json").items() if k != "_comment"}
+_UNIVERSE = (1, 2, 3)
+_KEYS = ("a", "b", "c")
+_INITIAL = {
+    "set": ([], [1], [1, 2]),
+    "list": ([], [1], [1, 2], [1, 2, 1], [1, 2, 3]),
+    "dict": ([], [("a", 1)], [("a", 1), ("b", 2)]),
+}
+
+
+def _iterables(maxlen):
+    out = [[]]
+    layer = [[]]
+    for _ in range(maxlen):
+        layer = [x + [v] for x in layer for v in _UNIVERSE]
+        out += layer
+    return out
+
+
+def _slices(n):
+    bounds = [None] + list(range(-(n + 1), n + 2))
+    return [slice(a, b, st) for st in (None, 1, 2, -1) for a in bounds for b in bounds]
+
+
+def _model_inputs(shape, n):
+    """[(label, args, kwargs)] for one argument shape of a builtin collection API (n = current size)"""
+    rng = range(-(n + 2), n + 3)
+    if shape in ("element", "value"):
+        return [(repr(v), [v], {}) for v in _UNIVERSE]
+    if shape == "none":
+        return [("", [], {})]
+    if shape == "iterable":
+        # any iterable: lists WITH REPEATS included (a set operation treats the argument as the set of its elements)
+        return [(repr(x), [x], {}) for x in _iterables(3)]
+    if shape == "iterables":
+        short = _iterables(1)
+        return [("", [], {})] + [(repr(x), [x], {}) for x in _iterables(3)] + [(f"{a!r}, {b!r}", [a, b], {}) for a in short for b in short] \
+            + [("[1, 2], [2, 3]", [[1, 2], [2, 3]], {}), ("[1, 1, 2], [2]", [[1, 1, 2], [2]], {})]
+    if shape == "set":
+        return [(repr(set(x)) if x else "set()", [set(x)], {}) for x in ([], [1], [2], [3], [1, 2], [1, 3], [2, 3], [1, 2, 3])]
+    if shape == "index":
+        return [(str(i), [i], {}) for i in rng]
+    if shape == "index?":
+        return [("", [], {})] + [(str(i), [i], {}) for i in rng]
+    if shape == "index,value":
+        return [(f"{i}, 9", [i, 9], {}) for i in rng]
+    if shape == "slice":
+        return [(repr(sl), [sl], {}) for sl in _slices(n)]
+    if shape == "slice,iterable":
+        out = []
+        for sl in _slices(n):
+            k = len(range(*sl.indices(n)))
+            for cnt in sorted({k, 0} | ({k + 1, max(k - 1, 0)} if sl.step in (None, 1) else set())):
+                out.append((f"{sl!r}, {[7, 8, 9, 6][:cnt]!r}", [sl, [7, 8, 9, 6][:cnt]], {}))
+        return out
+    if shape == "int":
+        return [(str(i), [i], {}) for i in (-1, 0, 1, 2, 3)]
+    if shape == "key":
+        return [(repr(k), [k], {}) for k in _KEYS]
+    if shape == "key,value":
+        return [(f"{k!r}, 9", [k, 9], {}) for k in _KEYS]
+    if shape == "key,default":
+        return [(f"{k!r}, 9", [k, 9], {}) for k in _KEYS] + [(f"{k!r}, None", [k, None], {}) for k in _KEYS[:2]]
+    if shape in ("mappings", "mapping"):
+        maps = [{}, {"a": 9}, {"c": 9}, {"a": 8, "c": 9}, {"b": 8, "a": 9}]
+        out = [(repr(m), [dict(m)], {}) for m in maps]
+        if shape == "mappings":
+            out += [("", [], {})]
+            out += [(repr(list(m.items())), [list(m.items())], {}) for m in maps[1:]]
+            out += [("[('a', 8), ('a', 9)]", [[("a", 8), ("a", 9)]], {}), ("[('c', 8), ('c', 9)]", [[("c", 8), ("c", 9)]], {})]
+            out += [("a=9", [], {"a": 9}), ("c=9", [], {"c": 9}), ("{'a': 8}, a=9, c=7", [{"a": 8}], {"a": 9, "c": 7})]
+        return out
+    raise _MUnsupported(f"argument shape {shape}")
+
+
+def _copy_arg(a):
+    if isinstance(a, list):
+        return [tuple(x) if isinstance(x, tuple) else x for x in a]
+    if isinstance(a, (set, dict)):
+        return type(a)(a)
+    return a
+
+
+_BUILTIN = {"set": set, "list": list, "dict": dict}
+_PROXY_OF = {"set": "_AssociationSet", "list": "_AssociationList", "dict": "_AssociationDict"}
+_RETURNS_VALUE = {("list", "pop"), ("dict", "pop"), ("dict", "popitem"), ("dict", "setdefault")}
+
+
+@R.rule("C50-R5", floor=30, template="T-MODEL",
+        desc="small-scope model check of the association-proxy collections by abstract execution of their own source (and of every "
+             "helper / inherited method they call) over a model of the underlying collection, creator, getter and setter: for "
+             "every mutator of the builtin set / list / dict that the proxy defines, every small proxy content and every argument "
+             "the builtin accepts -- single values, int indexes in and out of range, slices with negative bounds and steps, "
+             "arbitrary iterables up to length 3 WITH repeated elements, several iterables, sets for the operators, mappings / "
+             "pair lists / keywords for update -- the proxied values afterwards are exactly what the builtin collection holds "
+             "after the same call (no value missing, none left over, none twice, same order for lists), the same exception is "
+             "raised, value-returning mutators return the same value and in-place operators return the proxy")
+def r5(ctx):
+    done = 0
+    for kind in ("set", "list", "dict"):
+        cname = _PROXY_OF[kind]
+        cls = ctx.index.cls(f"{AP}::{cname}")
+        members, order_only = python_mutators(kind)
+        for m in members + order_only:
+            key = f"{AP}::{cname}.{m}:{kind}-model"
+            if m not in COLL_ARGS[kind]:
+                continue
+            f = ctx.index.resolve_method(cls, m)
+            if f is None or f.type_only:
+                ctx.ok(key, "not defined inside the package (collections.abc mixin or unavailable: C50-R2's business)", nontrivial=False)
+                continue
+            ctx.functions_analysed.add(f.key)
+            worst, runs, bad, unavailable = None, 0, 0, True
+            for initial in _INITIAL[kind]:
+                for shape in COLL_ARGS[kind][m]:
+                    for label, args, kwargs in _model_inputs(shape, len(initial)):
+                        model = ProxyExec(ctx, cls, kind, initial)
+                        ref = _BUILTIN[kind](initial)
+                        raised = ref_raised = None
+                        ret = ref_ret = None
+                        try:
+                            ret = model.call_proxy(m, [_copy_arg(a) for a in args], dict(kwargs))
+                        except _MRaise as ex:
+                            raised = etype_of(ex)
+                        except _MUnsupported as ex:
+                            ctx.require(False, f"{key}: `{m}({label})` on a proxy over {initial!r} uses a construct outside the "
+                                               f"modelled subset: {ex}")
+                        try:
+                            ref_ret = getattr(ref, m)(*[_copy_arg(a) for a in args], **kwargs)
+                        except Exception as ex:        # the builtin's own verdict on this input (KeyError, IndexError, ...)
+                            ref_raised = type(ex).__name__
+                        runs += 1
+                        if raised != "NotImplementedError":
+                            unavailable = False
+                        vals = model.values()
+                        shown = sorted(vals) if kind == "set" else vals
+                        what = None
+                        if model.raw_members():
+                            what = "stores something in the underlying collection that was not built by the creator"
+                        elif raised != ref_raised:
+                            what = (f"raises {raised}" if raised else "returns normally") + f" but the builtin {kind} " + \
+                                   (f"raises {ref_raised}" if ref_raised else "returns normally")
+                            if raised is None or ref_raised is None:
+                                what += f" (proxy: {shown}, builtin: {sorted(ref) if kind == 'set' else ref})"
+                        elif kind == "set" and m == "pop" and raised is None:
+                            if ret not in initial or sorted(vals) != sorted(set(initial) - {ret}):
+                                what = f"returns {ret!r} and leaves {shown}: not 'remove and return one member'"
+                        elif kind == "set" and len(vals) != len(set(vals)):
+                            what = f"leaves the proxied values {shown}: a value occurs twice (two association rows for one member)"
+                        elif (set(vals) != ref) if kind == "set" else (vals != ref):
+                            what = f"leaves the proxied values {shown} but the builtin {kind} holds {sorted(ref) if kind == 'set' else ref}"
+                        elif m.startswith("__i") and raised is None and ret is not model.proxy:
+                            what = "does not return the proxy itself (the attribute would be rebound)"
+                        elif (kind, m) in _RETURNS_VALUE and raised is None and ret != ref_ret:
+                            what = f"returns {ret!r} but the builtin {kind} returns {ref_ret!r}"
+                        if what:
+                            bad += 1
+                            size = sum(len(a) if hasattr(a, "__len__") else 1 for a in args)
+                            cand = (len(initial) + size, f"on a proxy over {initial!r}, `{m}({label})` {what}")
+                            if worst is None or cand[0] < worst[0]:
+                                worst = cand
+            if unavailable and runs:
+                ctx.ok(key, "loudly unavailable (always raises NotImplementedError)", nontrivial=False)
+                continue
+            ctx.check(worst is None, key,
+                      (f"differs from the builtin {kind} on {bad} of {runs} modelled calls, e.g. " + worst[1] if worst else "")
+                      + "; the intermediary objects created / removed -- and with them the persisted association rows -- differ "
+                      f"from the {kind} the proxy stands for",
+                      f"{runs} modelled calls agree with the builtin {kind}", f.loc)
+            done += 1
+    ctx.require(done > 0, "no mutator of the association-proxy collections could be modelled")
+
+
 # ------------------------------------------------------------------------------------- self-test
 R.mutant("ol-insert-no-reorder", OL,
          sub("        super().insert(index, entity)\n        self._reorder()\n", "        super().insert(index, entity)\n"), "C50-R1")
@@ -1494,3 +1669,102 @@ R.mutant("benign-rob-apset-delta-block-in-module-function", AP,
                                               "    for value in have - want:\n        proxy.remove(value)\n"
                                               "    for value in want - have:\n        proxy.add(value)\n\n\nclass _AssociationSet(")), None)
 R.mutant("rob-apset-delta-helper-never-adds", AP, _delta_refactor(_DELTA_DEF.format(add="")), "C50-R2")
+
+
+# ---- round-2 adversarial seeds (str2-u)
+# seed 3: __delitem__ renumbers only "the tail" -- right for ints and ascending slices, wrong for a NEGATIVE-step slice
+# (slice.indices()[0] is then the highest deleted index).  Caught by the slice inputs of the C50-R3 model.
+_DEL = "        super().__delitem__(index)\n        self._reorder()\n"
+_DEL_INT = ("            first = int(index)  # type: ignore[arg-type]\n"
+            "            if first < 0:\n"
+            "                first += len(self)\n")
+_DEL_TAIL = ("        super().__delitem__(index)\n"
+             "        for position in range(first, len(self)):\n"
+             "            self._order_entity(position, self[position], True)\n")
+_DEL_LOWEST = ("            hit = range(*index.indices(len(self)))\n"
+               "            first = min(hit) if hit else len(self)\n")
+R.mutant("seed3-ol-delitem-renumbers-tail-from-slice-start", OL,
+         sub(_DEL, "        if isinstance(index, slice):\n            first = index.indices(len(self))[0]\n        else:\n" + _DEL_INT + _DEL_TAIL), "C50-R3")
+R.mutant("ol-delitem-renumbers-tail-from-slice-start-helper-inverted", OL, chain(
+    sub(_DEL, "        if not isinstance(index, slice):\n" + _DEL_INT + "        else:\n            bounds = index.indices(len(self))\n            first = bounds[0]\n"
+              "        super().__delitem__(index)\n        self._renumber_from(first)\n"),
+    sub("    def sort(self, **kw: Any) -> None:\n",
+        "    def _renumber_from(self, first: int) -> None:\n        for position in range(first, len(self)):\n"
+        "            self._order_entity(position, self[position], True)\n\n    def sort(self, **kw: Any) -> None:\n")), "C50-R3")
+R.mutant("ol-delitem-slice-renumbers-from-raw-start", OL,
+         sub(_DEL, "        if isinstance(index, slice):\n            first = index.start or 0\n        else:\n" + _DEL_INT + _DEL_TAIL), "C50-R3")
+# the same optimisation done right: the tail starts at the LOWEST deleted index
+R.mutant("benign-ol-delitem-renumbers-tail-from-lowest-deleted-index", OL,
+         sub(_DEL, "        if isinstance(index, slice):\n" + _DEL_LOWEST + "        else:\n" + _DEL_INT + _DEL_TAIL), None)
+R.mutant("benign-ol-delitem-tail-helper-inverted-while-loop", OL, chain(
+    sub(_DEL, "        if not isinstance(index, slice):\n" + _DEL_INT + "        else:\n" + _DEL_LOWEST
+              + "        super().__delitem__(index)\n        self._renumber_from(first)\n"),
+    sub("    def sort(self, **kw: Any) -> None:\n",
+        "    def _renumber_from(self, first: int) -> None:\n        position = first\n        while position < len(self):\n"
+        "            self._order_entity(position, self[position], True)\n            position += 1\n\n    def sort(self, **kw: Any) -> None:\n")), None)
+R.mutant("benign-ol-delitem-literal-slice-delegation", OL,
+         sub(_DEL, "        if isinstance(index, slice):\n            super().__delitem__(index)\n        else:\n"
+                   "            super().__delitem__(int(index))  # type: ignore[arg-type]\n        self._reorder()\n"), None)
+# seed 4: symmetric_difference_update as a per-element "toggle" -- right for a set argument, wrong for an iterable that repeats
+# a value (added, then removed again).  Caught by the C50-R5 model (arbitrary iterables with repeats).
+_SDU = ("        want, have = self.symmetric_difference(other), set(self)\n\n"
+        "        remove, add = have - want, want - have\n\n"
+        "        for value in remove:\n            self.remove(value)\n"
+        "        for value in add:\n            self.add(value)\n\n"
+        "    def __ixor__(")
+
+
+def _toggle(src):
+    return ("        for value in " + src + ":\n            if value in self:\n                self.remove(value)\n"
+            "            else:\n                self.add(value)\n\n    def __ixor__(")
+
+
+R.mutant("seed4-apset-symmetric-difference-update-toggles-each-element", AP, sub(_SDU, _toggle("list(other)")), "C50-R5")
+R.mutant("apset-symmetric-difference-update-toggle-through-helper", AP, sub(
+    _SDU, "        for value in other:\n            self._toggle(value)\n\n"
+          "    def _toggle(self, value: Any) -> None:\n        present = value in self\n        if not present:\n            self.add(value)\n"
+          "            return\n        self.remove(value)\n\n    def __ixor__("), "C50-R5")
+R.mutant("apset-add-creates-duplicate-intermediary", AP,
+         sub("        if __element not in self:\n            self.col.add(self._create(__element))\n",
+             "        self.col.add(self._create(__element))\n"), "C50-R5")
+R.mutant("apset-isub-removes-instead-of-discards", AP,
+         sub("        for value in s:\n            self.discard(value)\n        return self\n",
+             "        for value in s:\n            self.remove(value)\n        return self\n"), "C50-R5")
+R.mutant("apset-intersection-update-keeps-last-iterable-only", AP,
+         sub("        for other in s:\n            want, have = self.intersection(other), set(self)\n",
+             "        for other in s[-1:]:\n            want, have = self.intersection(other), set(self)\n"), "C50-R5")
+# the same single pass done right: over the SET of the incoming values
+R.mutant("benign-apset-symmetric-difference-update-toggles-over-a-set", AP, sub(_SDU, _toggle("set(other)")), None)
+R.mutant("benign-apset-symmetric-difference-update-inverted-dedup-local", AP, sub(
+    _SDU, "        incoming = frozenset(other)\n        for value in incoming:\n            if value not in self:\n                self.add(value)\n"
+          "            else:\n                self.discard(value)\n\n    def __ixor__("), None)
+R.mutant("benign-apset-difference-update-through-set-algebra", AP,
+         sub("        for other in s:\n            for value in other:\n                self.discard(value)\n",
+             "        for other in s:\n            for value in set(self).intersection(other):\n                self.remove(value)\n"), None)
+# C50-R5 on the list / dict proxies
+R.mutant("aplist-pop-defaults-to-first-element", AP,
+         sub("    def pop(self, index: int = -1) -> _T:\n        return self.getter(self.col.pop(index))\n",
+             "    def pop(self, index: int = 0) -> _T:\n        return self.getter(self.col.pop(index))\n"), "C50-R5")
+R.mutant("aplist-remove-deletes-every-occurrence", AP,
+         sub("            if val == value:\n                del self.col[i]\n                return\n        raise ValueError(\"value not in list\")\n",
+             "            if val == value:\n                del self.col[i]\n                found = True\n        if not found:\n            raise ValueError(\"value not in list\")\n"
+             ).__class__ and chain(
+             sub("        for i, val in enumerate(self):\n            if val == value:\n                del self.col[i]\n                return\n        raise ValueError(\"value not in list\")\n",
+                 "        found = False\n        for i, val in reversed(list(enumerate(self))):\n            if val == value:\n                del self.col[i]\n                found = True\n"
+                 "        if not found:\n            raise ValueError(\"value not in list\")\n")), "C50-R5")
+R.mutant("apdict-setdefault-overwrites-present-key", AP,
+         sub("        if key not in self.col:\n            self.col[key] = self._create(key, default)\n            return default  # type: ignore[return-value]\n        else:\n            return self[key]\n",
+             "        self[key] = default  # type: ignore[assignment]\n        return default  # type: ignore[return-value]\n"), "C50-R5")
+R.mutant("apdict-update-skips-present-keys", AP,
+         sub("        for key, value in up.items():\n            self[key] = value\n",
+             "        for key, value in up.items():\n            if key not in self:\n                self[key] = value\n"), "C50-R5")
+R.mutant("benign-aplist-remove-through-index-lookup", AP,
+         sub("        for i, val in enumerate(self):\n            if val == value:\n                del self.col[i]\n                return\n        raise ValueError(\"value not in list\")\n",
+             "        try:\n            i = list(self).index(value)\n        except ValueError:\n            raise ValueError(\"value not in list\")\n        del self.col[i]\n"), None)
+R.mutant("benign-apdict-update-loop-over-keys", AP,
+         sub("        for key, value in up.items():\n            self[key] = value\n",
+             "        for key in up:\n            self[key] = up[key]\n"), None)
+R.mutant("benign-aplist-extend-materialises-and-appends-in-helper", AP, chain(
+    sub("    def extend(self, values: Iterable[_T]) -> None:\n        for v in values:\n            self.append(v)\n",
+        "    def extend(self, values: Iterable[_T]) -> None:\n        self._append_all(list(values))\n\n"
+        "    def _append_all(self, values: List[_T]) -> None:\n        index = 0\n        while index < len(values):\n            self.append(values[index])\n            index += 1\n")), None)
